@@ -31,6 +31,8 @@ type gstate struct {
 	id   int
 	wake chan struct{}
 	run  *run // the simulated process this goroutine belongs to (not necessarily the current one)
+	// maps read / written since this goroutine's last release operation (race.go)
+	recent []mapAcc
 }
 
 type schedState struct {
@@ -38,7 +40,8 @@ type schedState struct {
 	ready       []*gstate
 	nextGID     int
 	alive       int
-	inBlock     int // goroutines between BeginBlock and EndBlock (off the baton, in a real blocking operation)
+	inBlock     int       // goroutines between BeginBlock and EndBlock (off the baton, in a real blocking operation)
+	all         []*gstate // every goroutine of the process that has not ended
 	arbitrating bool
 	decisions   int // picks among >= 2 candidates
 	picks       uint64
@@ -53,6 +56,7 @@ func (r *run) schedInit() *gstate {
 	r.sch.nextGID = 1
 	r.sch.alive = 1
 	r.sch.holder = g0
+	r.sch.all = []*gstate{g0}
 	r.sch.nextYield = r.quantum()
 	return g0
 }
@@ -160,6 +164,7 @@ func BeginBlock() *gstate {
 	r.sch.holder = nil
 	if g != nil {
 		r.sch.inBlock++
+		r.raceUpdate()
 	}
 	r.smu.Unlock()
 	if g == nil {
@@ -179,6 +184,7 @@ func EndBlock(g *gstate) {
 	r := g.run
 	r.smu.Lock()
 	r.sch.inBlock--
+	r.raceUpdate()
 	r.smu.Unlock()
 	if r.exited || r != cur {
 		runtime.Goexit()
@@ -213,6 +219,12 @@ func (r *run) goStart() *gstate {
 	r.sch.nextGID++
 	r.sch.alive++
 	r.sch.ready = append(r.sch.ready, g)
+	r.sch.all = append(r.sch.all, g)
+	// starting a goroutine publishes what its creator has done so far
+	if h := r.sch.holder; h != nil {
+		h.recent = h.recent[:0]
+	}
+	r.raceUpdate()
 	r.smu.Unlock()
 	return g
 }
@@ -224,6 +236,13 @@ func (r *run) goEnd(g *gstate) {
 	if r.sch.holder == g {
 		r.sch.holder = nil
 	}
+	for i, o := range r.sch.all {
+		if o == g {
+			r.sch.all = append(r.sch.all[:i], r.sch.all[i+1:]...)
+			break
+		}
+	}
+	r.raceUpdate()
 	r.smu.Unlock()
 	r.kick()
 }
@@ -303,6 +322,7 @@ func ZeroOfSend[T any](ch chan<- T) (z T) { return z }
 // Recv and Recv2 are what siminstr turns receive expressions into: the channel operand is
 // evaluated by the caller under the baton, the receive itself is a scheduling point.
 func Recv[T any](ch <-chan T) T {
+	Release()
 	g := BeginBlock()
 	v := <-ch
 	EndBlock(g)
@@ -310,6 +330,7 @@ func Recv[T any](ch <-chan T) T {
 }
 
 func Recv2[T any](ch <-chan T) (T, bool) {
+	Release()
 	g := BeginBlock()
 	v, ok := <-ch
 	EndBlock(g)
@@ -323,6 +344,7 @@ func OnceDo(do func(func()), f func()) {
 	do(func() {
 		EndBlock(g)
 		f()
+		Release() // the end of a Once function publishes what it did
 		g = BeginBlock()
 	})
 	EndBlock(g)
